@@ -14,7 +14,7 @@ import subprocess
 import sys
 
 HERE = os.path.dirname(os.path.dirname(os.path.abspath(__file__)))
-SEED = "/tmp/seed"
+SEED = os.environ.get("SEED_DIR", "/tmp/seed")
 MISSED_FIRST = {  # seeds not reported by the checks as they stood when the seed arrived -> what was strengthened
     "C01-A": "C01.6 now follows the reaching definition of the continuation buffer and rejects a size that is stale after the piece grew",
     "C03-B": "C09 now treats class-level containers aliased into instances (self.kws = self.hasher_kws) as shared state, key by key; C03.4 additionally requires the keyword dictionary carrying the pad switch to be created per instance",
@@ -62,6 +62,33 @@ MISSED_FIRST = {  # seeds not reported by the checks as they stood when the seed
     "C17-r2C": "new clause in C17.2: a temporary file opened with buffering=0 is a raw file whose write() may be short; the ignored count is a violation",
     "C20-r2A": "new rule C20.8: in find_config_file every default-location result must be control dependent on no explicit --config-path having been given",
     "C20-r2B": "was reported for a wrong reason (add_argument(**settings) was not expanded, so list options looked like strings); the table extractor now expands dictionary literals passed with **, and new rule C20.7 reports one container object shared as default by several options when an option value is modified in place",
+    # ---- round 4 (A: a refactoring that is not quite equivalent; B: a plausible feature, optimisation or bug-fix attempt)
+    "C01-r4A": "was reported, partly for reasons that were false alarms on the sound part of the refactoring (first open through a helper, iterator instead of an index); C01.6 now follows a StopIteration that a callee lets escape while bytes are pending, and answers undecided for hand-over forms it cannot read",
+    "C01-r4B": "target check undecided (prefix-length slicing instead of relpath is outside the extractor); reported by C08.1 (the listed paths depend on how the content path is spelled)",
+    "C02-r4A": "undecided (exit 2): the piece layer is a property derived from a list that the root computation pads in place; the hasher facts are not extractable from the mixin form",
+    "C02-r4B": "was undecided for C02 and silent for C09; C09.2 now judges values parked on a class object (type(self).attr = ...) by one operation and handed out to later ones",
+    "C03-r4A": "was reported by four checks for reasons that were false (the hasher object obtained through functools.partial was not identified, so leaf / layer facts were compared as text); the facts are now undecided when the hasher is not identified - the seed is answered undecided (exit 2): a dead store after partial(**self.kws) copied the dictionary is not followed",
+    "C03-r4B": "undecided (exit 2): memoryview-based hashing of a reused buffer is outside the hasher fact extractor (anchor not found)",
+    "C04-r4A": "undecided (exit 2): generators that return the unfinished piece (`partial = yield from ...`) are outside the carried-buffer rules",
+    "C05-r4A": "undecided (exit 2): the reader trio replaced by a while-form reader",
+    "C05-r4B": "was silent for C05 (and falsely reported by C08, whose parameter fallback took the new reader-side call of merkle_root for a creating context); new rules C05.5: the recorded hashes the checkers compare with are taken verbatim from the metafile, and a reader that recomputes a pieces root pads the layer like the writers do (root of an all-zero piece, not 32 zero bytes)",
+    "C07-r4A": "was reported partly for wrong reasons; C07.2 now resolves the conversion function of each table row and folds it for an unnamed field (None): `_flag(None) == 1` is named as the cause, the other rows hold",
+    "C07-r4B": "undecided (exit 2): the filter gained a second pass over both dictionaries (not a single loop over the request)",
+    "C08-r4A": "the C08 analysis crashed (a malformed term of the new enumerate support) and C20 raised false alarms (starred tuple return); fixed both; C08.1 no longer takes Path.absolute() for a normaliser: '..' survives it, so the name depends on the spelling",
+    "C09-r4A": "was reported by C03.4 only; C09.2 now follows a class-level container through a local alias and a method that hands it out (self.kws = self.hasher_options())",
+    "C10-r4A": "undecided (exit 2): the hasher loop split into generator + comprehension",
+    "C10-r4B": "undecided (exit 2): memoryview-based hashing of a reused buffer",
+    "C11-r4A": "undecided (exit 2): the digest computation moved into a helper and the URI is built by urlencode",
+    "C12-r4A": "undecided (exit 2): the normaliser rewritten over exponents with helper exact_log2()",
+    "C12-r4B": "was silent; new rule in C12.2: the payload size that picks the piece length must be the total of the listing that is hashed (utils.filelist_total), not a walk of its own",
+    "C13-r4A": "was silent (the piece map was declared undecided territory); new rule C13.9: no file of the list is passed over without a node; a map that positions itself by bisect instead of advancing a counter is answered undecided (exit 2)",
+    "C13-r4B": "was silent (the call piece_node.find_matches was not resolved, so the index object did not reach _find_matches); element kinds of list attributes are now inferred, and C13.5 reports a candidate list replaced by a fixed-size display",
+    "C14-r4A": "was reported for two false reasons (same resolution gap); now answered undecided by the right rule (C14.4: cannot show that every node of the closed-form map covers a byte)",
+    "C15-r4A": "was reported for false reasons (first open through a helper, `size > 0` instead of `size == 0`); the end-of-iteration rule now evaluates worlds, and C15.3 follows a read buffer kept on the object: the aligned arm hashes stale bytes",
+    "C15-r4B": "undecided (exit 2): the guard of the padding entry compares the path with the last file",
+    "C16-r4A": "undecided (exit 2): generators returning the unfinished piece",
+    "C20-r4A": "was reported for false reasons (C06 and C20.3 did not read the table-driven stores); loops over literal tables are now evaluated column by column (flow, points-to, C20.3/.4): the seed is reported by C20.4 - the table holds the lists as they were before the recovery of a swallowed content path",
+    "C20-r4B": "was reported for a false reason (re.split not evaluated: kind '?'); the configuration route is now evaluated by value on representatives that contain what is legal in a URL: the comma split is reported",
     "C10-r2C": "new fact single.key (C02.1 / C10.3): the key of a single-file payload's leaf in the file tree is the recorded name (all definitions of the attribute used agree with what is stored as info['name'], modulo abspath)",
 }
 
@@ -76,6 +103,8 @@ def main():
             continue
         for x in ("A", "B", "C"):
             sid = "%s-%s%s" % (d, ROUND, x)
+            if ROUND == "r4":
+                meta_kind = {"A": "refactoring gone wrong", "B": "plausible feature / optimisation / bug-fix attempt"}.get(x)
             if only and sid not in only and d not in only:
                 continue
             src = os.path.join(SEED, d, "out", x)
@@ -90,7 +119,11 @@ def main():
             r = subprocess.run([sys.executable, os.path.join(HERE, "tools", "seedtest.py"), os.path.join(src, "patch.diff")], capture_output=True, text=True)
             fired = []
             rules = []
+            undecided = []
             for line in r.stdout.splitlines():
+                mu = re.match(r"(C\d\d) undecided", line)
+                if mu:
+                    undecided.append(mu.group(1))
                 if line.startswith("FIRED:"):
                     fired = [f for f in line.split()[1:] if f != "none"]
                 m = re.match(r"\s+(C\d\d\.\w+) @(\S+): (.*)", line)
@@ -132,6 +165,7 @@ def main():
                     "demo_exit_clean": int(c["demo_clean_exit"]), "demo_exit_patched": int(c["demo_patched_exit"]), "suite_with_patch": c["suite_exit"][2:],
                 },
                 "checks_reporting_it": fired,
+                "checks_undecided_on_it": undecided,
                 "rules_reporting_it": sorted(set(rules))[:12],
                 "target_check_reports_it": d in fired,
                 "benign_parts": benign,
